@@ -93,6 +93,12 @@ func (c *Ctx) GuardedByAny(rule string, fn *ssa.Function, condName string, alts 
 		n += len(es)
 		cut.AddEdges(es...)
 	}
+	// an edge on which a disjunction holds each of whose cases is one of the alternatives (a predicate helper's
+	// "false" answer, for instance)
+	if es := HeldEdgesAny(fn, alts); len(es) > 0 {
+		n += len(es)
+		cut.AddEdges(es...)
+	}
 	if n == 0 {
 		c.Fail(rule, inst, c.P.InstrPos(T.Ins[0]), "no branch on "+condName+" found in "+fname(fn)+": "+why)
 		return false
